@@ -178,6 +178,34 @@ func InstallExt(env *sbx.Env) [][2]string {
 	return [][2]string{{"lfs.extension.vx.clean", p + " clean %f"}, {"lfs.extension.vx.smudge", p + " smudge %f"}, {"lfs.extension.vx.priority", "0"}}
 }
 
+// InstallFaultyExt installs the same reversible extension, except that one side misbehaves:
+//
+//	clean-partial:   the clean side consumes its input, emits only the first 100 transformed bytes, exits 3
+//	clean-nooutput:  the clean side consumes its input, emits nothing, exits 1
+//	clean-full-exit: the clean side emits the complete transformed output and then exits 1
+//	smudge-partial:  the smudge side emits only the first 100 bytes, exits 3
+//	smudge-nooutput: the smudge side emits nothing, exits 1
+func InstallFaultyExt(env *sbx.Env, kind string) [][2]string {
+	p := filepath.Join(env.Root, "verif-ext-faulty")
+	cl := "exec tr '\\000-\\377' '\\001-\\377\\000'"
+	sm := "exec tr '\\001-\\377\\000' '\\000-\\377'"
+	switch kind {
+	case "clean-partial":
+		cl = "tr '\\000-\\377' '\\001-\\377\\000' | { head -c 100; cat >/dev/null; }; exit 3"
+	case "clean-nooutput":
+		cl = "cat >/dev/null; exit 1"
+	case "clean-full-exit":
+		cl = "tr '\\000-\\377' '\\001-\\377\\000'; exit 1"
+	case "smudge-partial":
+		sm = "tr '\\001-\\377\\000' '\\000-\\377' | { head -c 100; cat >/dev/null; }; exit 3"
+	case "smudge-nooutput":
+		sm = "cat >/dev/null; exit 1"
+	}
+	script := "#!/bin/sh\nif [ \"$1\" = clean ]; then " + cl + "; else " + sm + "; fi\n"
+	os.WriteFile(p, []byte(script), 0o755)
+	return [][2]string{{"lfs.extension.vx.clean", p + " clean %f"}, {"lfs.extension.vx.smudge", p + " smudge %f"}, {"lfs.extension.vx.priority", "0"}}
+}
+
 // ExtTransform is what the test extension's clean side does.
 func ExtTransform(b []byte) []byte {
 	out := make([]byte, len(b))
